@@ -386,6 +386,19 @@ func cmdForm(args []string) {
 		Extra: map[string]interface{}{"panics": panics}}.Print()
 }
 
+// isLongValue: the value holds a long text of the specification (symbols.json "long").
+func isLongValue(tv *typedVal) bool {
+	if tv == nil {
+		return false
+	}
+	for _, x := range tv.V {
+		if _, ok := sym.Long[x]; ok {
+			return true
+		}
+	}
+	return false
+}
+
 func genFormScenarios(cf formCfgFile) []formScenario {
 	seed, _ := strconv.ParseInt(os.Getenv("VERIF_SEED"), 10, 64)
 	rng := rand.New(rand.NewSource(seed))
@@ -411,13 +424,23 @@ func genFormScenarios(cf formCfgFile) []formScenario {
 	var out []formScenario
 	for _, cfg := range cf.Configs {
 		own := []string{"nofield"}
+		seen := map[string]bool{}
 		for _, f := range cfg {
-			own = append(own, f.Var)
+			if !seen[f.Var] { // a name may be shared by several fields
+				own = append(own, f.Var)
+			}
+			seen[f.Var] = true
 		}
-		// all operations on this configuration's own variables
+		// all operations on this configuration's own variables; for the name that is no field one
+		// value of every Go type (no field, no type to check the value against)
 		var ops []formOp
 		for _, v := range own {
+			kinds := map[string]bool{}
 			for i := range cf.Values {
+				if v == "nofield" && kinds[cf.Values[i].K] {
+					continue
+				}
+				kinds[cf.Values[i].K] = true
 				ops = append(ops, formOp{Op: "set", Var: v, TV: &cf.Values[i]})
 			}
 			ops = append(ops, formOp{Op: "get", Var: v}, formOp{Op: "raw", Var: v})
@@ -443,6 +466,11 @@ func genFormScenarios(cf formCfgFile) []formScenario {
 			out = append(out, formScenario{Cfg: cfg, Ops: []formOp{a, {Op: "get", Var: a.Var}, {Op: "submit"}, {Op: "tokenreader"}}})
 			out = append(out, formScenario{Cfg: cfg, Ops: []formOp{a, {Op: "unmarshal", Ty: "form"}, {Op: "get", Var: a.Var}, a, {Op: "submit"}}})
 			for i, ty := range types {
+				// the length classes of a text are crossed with the constructed form, the decoded form, the
+				// decoded submission and one more document type in turn - not with all six
+				if isLongValue(a.TV) && ty != "submit" && i != k%len(types) {
+					continue
+				}
 				dz := formOp{Op: "unmarshal", Ty: ty, Via: via(i + k)}
 				out = append(out, formScenario{Cfg: cfg, Ops: []formOp{dz, a, {Op: "get", Var: a.Var}, {Op: "submit"}, {Op: "tokenreader"}}})
 				if ty == "submit" {
